@@ -53,4 +53,22 @@ TEXTS = {
         level_text="Fault enumeration: every write index of every prune's stream is a crash point (exhaustive per history), for every sampled prune version; the dead-set/reachability invariant is evaluated incrementally for all round pairs of each history.",
         level_note="Trusted: the harness's reachability walk and the simulated RocksDB's durability model.",
     ),
+    "C09": dict(
+        engine="wmptsim", design_ref="DESIGN.md section 6 (C09)",
+        technique=SIM + " (sorted map with total weight and cumulative-weight ownership; independent root hasher), histories x commit level x GC x reload; fault-free by nature",
+        level_text="Exploration: Weight() after every operation, root hash and the owner of every block after every commit, on the live trie and on a trie reloaded from storage, for tens of thousands to millions of seeded histories over key pools with shared prefixes of every length.",
+        level_note="Trusted: harness/refwmpt (independent of core/util, sha3 only). Known finding listed: GC deletes stored nodes shared by two places of the trie (see known_findings.json).",
+    ),
+    "C11": dict(
+        engine="wmptsim", design_ref="DESIGN.md section 6 (C11)",
+        technique="deterministic simulation with crash injection: seeded histories on a simulated StorageAdapter (and real pebble on StrictMem); reopen-from-(root,weight) vs. live observations after every commit and GC pass; every prefix of the storage write log materialised as a crashed store; power loss as a generated operation",
+        level_text="Fault enumeration: within each sampled history every boundary between storage operations is a crash point (exhaustive), and the last surviving commit must be fully resolvable and observationally identical there; histories (incl. GC passes in any position and root reads at any time) are sampled.",
+        level_note="Trusted: the simulated store's durability model. Known finding listed: shared stored nodes are deleted by GC (no reference counting).",
+    ),
+    "C13": dict(
+        engine="wmptsim", design_ref="DESIGN.md section 6 (C13)",
+        technique=SIM + ": checkpoint/commit/rollback cycles with storage key-set accounting and reopen-vs-live comparison of the checkpoint state",
+        level_text="Exploration over seeded checkpoint states, change batches (incl. same-value rewrites and delete/re-add of identical content), collapse levels, optional GC pass and both rollback entry points, with exact storage accounting (nothing of the checkpoint lost, nothing only the rolled-back commit wrote left).",
+        level_note="Trusted: raw key-set snapshots of the simulated store. Known finding listed: shared stored nodes are deleted by GC.",
+    ),
 }
